@@ -170,7 +170,7 @@ struct Obs {
     refs: Vec<usize>,
     kws: Vec<u8>,
     lits: Vec<(u8, Vec<u8>)>,
-    vars: Vec<(String, char)>,
+    vars: Vec<(String, char, bool)>,
     per_line: Vec<(usize, Vec<RT>)>,
 }
 
@@ -210,12 +210,13 @@ fn observe(prog: &str) -> Obs {
             let toks = rom_scan(body);
             o.nums.push(n);
             o.refs.extend(line_refs(&toks));
-            for t in &toks {
+            for (k, t) in toks.iter().enumerate() {
                 match t {
                     RT::Kw(c) => if *c != T_REM { o.kws.push(*c) },
                     RT::Str(s) => o.lits.push((b'S', s.clone())),
                     RT::Data(s) => o.lits.push((b'D', s.clone())),
-                    RT::Var(v) => o.vars.push(var_sig(v)),
+                    // a name directly followed by `(` is an array (or FN) reference: part of its identity
+                    RT::Var(v) => { let (n2, suf) = var_sig(v); o.vars.push((n2, suf, matches!(toks.get(k + 1), Some(RT::Ch(b'('))))); }
                     _ => {}
                 }
             }
@@ -341,6 +342,68 @@ fn tokenizes(src: &str) -> bool {
 // ------------------------------------------------------------------------------------------------
 // generator
 // ------------------------------------------------------------------------------------------------
+/// PRINT items that start with a reserved word (every function / string function token, FN, NOT)
+const ITEM_STARTS: [&str; 29] = [
+    "ABS(X)", "ASC(A$)", "ATN(X)", "COS(X)", "EXP(X)", "FN Z(X)", "FRE(0)", "INT(X)", "LEN(A$)", "LOG(X)", "PDL(0)", "PEEK(X)",
+    "POS(0)", "RND(1)", "SCRN(1,2)", "SGN(X)", "SIN(X)", "SQR(X)", "TAN(X)", "USR(X)", "VAL(A$)", "CHR$(65)", "LEFT$(A$,1)",
+    "MID$(A$,1)", "RIGHT$(A$,1)", "STR$(X)", "SPC(3)", "TAB(3)", "NOT X",
+];
+/// shapes of the item that ends in the variable `@`: alone, tail of binary / unary expressions
+const LEFT_SHAPES: [&str; 8] = ["@", "X+@", "-@", "NOT @", "(X)*@", "X OR @", "1<@", "X-(Y)/@"];
+
+/// two-character name prefixes that would complete a reserved word with the first characters of
+/// `item` (`CO`+`SIN(` = COS, `XI`+`FRE(` = IF): computed from the ROM table
+fn hazard_prefixes(item: &str) -> Vec<String> {
+    let text: String = item.chars().filter(|c| *c != ' ').collect::<String>().to_uppercase();
+    let mut v: Vec<String> = Vec::new();
+    for (kw, _) in ROM.iter() {
+        for j in 1..=2usize {
+            if j >= kw.len() || !text.starts_with(&kw[j..]) { continue; }
+            let x = &kw[..j];
+            if !x.chars().all(|c| c.is_ascii_alphanumeric()) { continue; }
+            if j == 2 { if x.as_bytes()[0].is_ascii_alphabetic() { v.push(x.to_string()); } }
+            else { for l in ["X", "Q", "B"] { v.push(format!("{}{}", l, x)); } }
+        }
+    }
+    v.sort();
+    v.dedup();
+    v
+}
+
+/// (long variable name, following item) pairs that are hazardous when run together, all valid
+fn juxt_hazards() -> Vec<(String, String)> {
+    let mut v = Vec::new();
+    for item in ITEM_STARTS.iter() {
+        for pre in hazard_prefixes(item) {
+            let name = format!("{}QQQ", pre);
+            if verifies(&format!("10 PRINT X+{} {}\n", name, item)) { v.push((name, item.to_string())); }
+        }
+    }
+    v
+}
+
+fn find_name<'t>(node: tree_sitter::Node<'t>, src: &str, name: &str) -> Option<tree_sitter::Node<'t>> {
+    if node.kind().starts_with("name_") && lang::node_text(&node, src).replace(' ', "").eq_ignore_ascii_case(name) { return Some(node); }
+    let mut c = node.walk();
+    for ch in node.children(&mut c) { if let Some(n) = find_name(ch, src, name) { return Some(n); } }
+    None
+}
+
+/// what `needs_guard`'s climb finds for the first occurrence of variable `name` in `line`, in the
+/// vocabulary of the Lean model (`MinifyVars.Next`): `none`, `sub`, a token code, `node1` / `node0`
+fn climb_next(parser: &mut tree_sitter::Parser, line: &str, name: &str) -> Option<String> {
+    let src = String::from(line) + "\n";
+    let tree = parser.parse(&src, None)?;
+    let mut node = find_name(tree.root_node(), &src, name)?;
+    while node.next_named_sibling().is_none() {
+        match node.parent() { Some(p) => node = p, None => return Some("none".into()) }
+    }
+    let next = node.next_named_sibling().unwrap();
+    if let Some(c) = kind_code(next.kind()) { return Some(c.to_string()); }
+    if next.kind() == "subscript" { return Some("sub".into()); }
+    Some(if node.next_sibling() == Some(next) { "node1".into() } else { "node0".into() })
+}
+
 const REALS: [&str; 44] = [
     "X", "Y", "I", "J", "N", "K", "AB", "ABC", "ABD", "ABCDE", "ABX", "ABXYZ", "COX", "COXYZ", "LOX", "LOXYZ", "GEX", "GEXYZ",
     "LEX", "LIXY", "LIXYZ", "NOX", "NOXYZ", "POX", "POXYZ", "INX", "INXYZ", "GOX", "GOXYZ", "XAB", "XABCD", "XFY", "XFYZZ", "XTZ",
@@ -360,6 +423,7 @@ struct Gen<'a> {
     nums: Vec<usize>,
     rem_lines: Vec<usize>,
     juxt: bool,
+    haz: &'a [(String, String)],
 }
 
 impl<'a> Gen<'a> {
@@ -423,6 +487,16 @@ impl<'a> Gen<'a> {
         match k {
             0..=15 => {
                 let mut s = if self.r.chance(10) { "?".to_string() } else { "PRINT".to_string() };
+                if self.r.chance(8) && !self.haz.is_empty() {
+                    // items run together: the left one ends in a long variable (alone or as the tail of a
+                    // compound expression), the right one starts with a reserved word
+                    let (name, item) = if self.r.chance(75) { let h = self.r.pick(self.haz); (h.0.clone(), h.1.clone()) }
+                        else { (self.real(), (*self.r.pick(&ITEM_STARTS)).to_string()) };
+                    let left = (*self.r.pick(&LEFT_SHAPES)).replace('@', &self.casefix(&name));
+                    self.juxt = true;
+                    let lead = if self.r.chance(30) { format!("{};", self.sexpr(false)) } else { String::new() };
+                    return format!("{} {}{}{}{}", s, lead, left, self.sp(), item);
+                }
                 let n = self.r.below(4);
                 for i in 0..n {
                     s += self.sp();
@@ -513,7 +587,7 @@ impl<'a> Gen<'a> {
     }
 }
 
-fn gen_program(r: &mut Rng, discards: &mut u64) -> (String, bool) {
+fn gen_program(r: &mut Rng, discards: &mut u64, haz: &[(String, String)]) -> (String, bool) {
     let n = r.range(2, 9);
     let start = *r.pick(&[1usize, 5, 10, 10, 100, 1000, 63000]);
     let step = *r.pick(&[1usize, 5, 10, 10, 10, 100]);
@@ -527,7 +601,7 @@ fn gen_program(r: &mut Rng, discards: &mut u64) -> (String, bool) {
     if r.chance(25) { is_rem[0] = true; }
     if r.chance(25) { is_rem[n - 1] = true; }
     let rem_lines: Vec<usize> = (0..n).filter(|i| is_rem[*i]).map(|i| nums[i]).collect();
-    let mut g = Gen { r, nums: nums.clone(), rem_lines, juxt: false };
+    let mut g = Gen { r, nums: nums.clone(), rem_lines, juxt: false, haz };
     let mut prog = String::new();
     for i in 0..n {
         let mut line = String::new();
@@ -569,6 +643,18 @@ const FIXED: [&str; 14] = [
 const SPECIAL: [(&str, &str); 2] = [
     ("10 PRINT XIB FRE(0)\n20 END\n", "c17/print-juxtaposition"),
     ("10 FOR I = XSQ TO P\n20 END\n", "c17/three-node-token"),
+];
+
+/// later witnesses (appended after the generated stream so that earlier case numbers stay put):
+/// a long variable ending a compound PRINT item that runs into a function call, and `;` between a
+/// string variable and `(`
+const FIXED2: [(&str, &str); 6] = [
+    ("10 PRINT X+COUNT SIN(X)\n20 END\n", "c17/print-juxtaposition"),
+    ("10 PRINT -INDEX TAN(X)\n20 END\n", "c17/print-juxtaposition"),
+    ("10 PRINT X*ABACUS SGN(X);NOT XIBQQ FRE(0)\n20 END\n", "c17/print-juxtaposition"),
+    ("10 PRINT A$;(X)*2\n20 END\n", "c17"),
+    ("10 PRINT NAME$;(X);B$;(Y)\n20 END\n", "c17"),
+    ("10 PRINT CHR$(65);(X);\"A\";(Y);AB%;(X);ABC;(X)\n20 END\n", "c17"),
 ];
 
 // ------------------------------------------------------------------------------------------------
@@ -656,8 +742,13 @@ fn run_case(ctx: &mut Ctx, idx: usize, prog: &str, fam: &str) {
         // statements swallowed by an unterminated DATA string: the output's structure is not comparable
         if data_absorbed || data_swallow { parses[level] = false; }
         let swallowed = data_absorbed || data_swallow;
+        // `A$;(X)` (or `A$;LONGNAME` with a guarded name) written as `A$(…`: a scalar turned into an array reference
+        let squeeze = |t: &str| t.chars().filter(|c| *c != ' ').collect::<String>();
+        let semi_paren = squeeze(&out).matches("$(").count() > squeeze(prog).matches("$(").count();
+        let root = if semi_paren { Some("c17/semicolon-before-paren-dropped".to_string()) } else { root };
         let sig_of = |specific: &str| -> String { match &root { Some(r) => r.clone(), None => format!("{}/{}", fam, specific) } };
-        let inv_sig = if out.contains(")(") && !prog.contains(")(") { "c17/array-name-parenthesized".to_string() }
+        let inv_sig = if semi_paren { "c17/semicolon-before-paren-dropped".to_string() }
+            else if out.contains(")(") && !prog.contains(")(") { "c17/array-name-parenthesized".to_string() }
             else if root.is_some() { sig_of("") }
             else if o.kws != inp.kws { format!("{}/hidden-token", fam) }
             else { sig_of("output-invalid") };
@@ -808,6 +899,57 @@ fn run_short_cases(ctx: &mut Ctx, base: usize) {
     ctx.out.case(b"short-name-sweep", true);
 }
 
+/// PRINT items run together: every item-starting reserved word × the name prefixes that complete a
+/// reserved word with it (plus controls; all 936 prefixes in the thorough tier) × every shape of
+/// the left item × two name lengths, through the real minifier; oracle = the ROM reads the same,
+/// tie = `needs_guard` in full (`c17 guardnode`) on what the climb from the name node finds
+fn run_juxt_cases(ctx: &mut Ctx, idx: usize) {
+    if !ctx.out.wants(idx) { return; }
+    let mut parser = new_parser();
+    let mut n = 0u64;
+    let mut hazardous = 0u64;
+    let all: Vec<String> = if ctx.tier_thorough {
+        let mut v = Vec::new();
+        for a in b'A'..=b'Z' { for b in (b'A'..=b'Z').chain(b'0'..=b'9') { v.push(format!("{}{}", a as char, b as char)); } }
+        v
+    } else { vec!["XQ".into(), "AB".into(), "LO".into(), "ST".into(), "B2".into()] };
+    for item in ITEM_STARTS.iter() {
+        let hz = hazard_prefixes(item);
+        let mut pres: Vec<String> = hz.clone();
+        pres.extend(all.iter().cloned());
+        pres.sort();
+        pres.dedup();
+        for pre in pres.iter() {
+            for tail in ["QQQ", "Q"] {
+                let name = format!("{}{}", pre, tail);
+                for shape in LEFT_SHAPES.iter() {
+                    let line = format!("10 PRINT {} {}", shape.replace('@', &name), item);
+                    let src = format!("{}\n", line);
+                    if !verifies(&src) { continue; }
+                    let out = match minify(&src, 1) { Res::Ok(s) => s, _ => continue };
+                    n += 1;
+                    if hz.contains(pre) { hazardous += 1; }
+                    let (i, o) = (observe(&src), observe(&out));
+                    let ok = verifies(&out) && i.kws == o.kws && i.vars == o.vars;
+                    ctx.out.oracle(ok, "c17-reserved-words", "c17/print-juxtaposition/hidden-token",
+                        &format!("idx={} level=1 prog={:?} out={:?}", idx, src, out));
+                    if !ok { continue; }
+                    // did the real code guard?  (`(ab)` written, or a short name left alone)
+                    let paren = format!("({})", pre);
+                    let text = out.trim_end();
+                    let guarded_real = if tail == "QQQ" { text.contains(&paren) } else { text.contains(&name) };
+                    if let Some(nx) = climb_next(&mut parser, &line, &name) {
+                        ctx.out.q(&format!("c17 guardnode {} {}", hx(name.as_bytes()), nx), if guarded_real { "1" } else { "0" });
+                    }
+                }
+            }
+        }
+    }
+    ctx.out.count_n("juxtaposition-sweep-cases", n);
+    ctx.out.count_n("juxtaposition-sweep-hazardous", hazardous);
+    ctx.out.case(b"juxtaposition-sweep", hazardous > 0);
+}
+
 pub fn run(ctx: &mut Ctx) {
     if let Ok(p) = std::env::var("C17_PROBE") {
         let src = std::fs::read_to_string(p).unwrap();
@@ -818,6 +960,8 @@ pub fn run(ctx: &mut Ctx) {
     let n = ctx.n(3000, 60000);
     let mut discards = 0u64;
     let mut idx = 0usize;
+    let haz = juxt_hazards();
+    ctx.out.count_n("juxtaposition-hazard-pairs", haz.len() as u64);
     for p in FIXED.iter() {
         if ctx.out.wants(idx) { run_case(ctx, idx, p, "c17"); }
         idx += 1;
@@ -831,10 +975,16 @@ pub fn run(ctx: &mut Ctx) {
     for _ in 0..n {
         let mut r = rng.fork(idx as u64);
         if ctx.out.wants(idx) {
-            let (prog, juxt) = gen_program(&mut r, &mut discards);
+            let (prog, juxt) = gen_program(&mut r, &mut discards, &haz);
             if juxt { ctx.out.count("print-juxtaposition"); }
             run_case(ctx, idx, &prog, if juxt { "c17/print-juxtaposition" } else { "c17" });
         }
+        idx += 1;
+    }
+    run_juxt_cases(ctx, idx);
+    idx += 1;
+    for (p, fam) in FIXED2.iter() {
+        if ctx.out.wants(idx) { run_case(ctx, idx, p, fam); }
         idx += 1;
     }
     ctx.out.count_n("discarded-invalid-lines", discards);
